@@ -167,12 +167,22 @@ def rule_M8(chk, lib):
             for meth in methods.get(c["cls"], []):
                 mdecls = _decls_of(meth)
                 for lp in C.walk_stmt(meth["body"]):
-                    if lp.get("k") != "For" or lp.get("c") is None or lp.get("init") is None or lp["init"].get("k") != "Decl":
+                    if lp.get("k") not in ("For", "While") or lp.get("c") is None:
                         continue
                     cnd = C.strip_casts(lp["c"])
-                    iv = lp["init"]["d"][0]
-                    if cnd.get("k") != "Bin" or cnd.get("op") not in ("<", "!=") or \
-                            C.strip_casts(cnd["a"]).get("id") != iv["id"]:
+                    if cnd.get("k") != "Bin" or cnd.get("op") not in ("<", "!="):
+                        continue
+                    iv = None
+                    if lp.get("k") == "For" and lp.get("init") is not None and lp["init"].get("k") == "Decl":
+                        iv = lp["init"]["d"][0]
+                    else:
+                        # the counter of a while loop: the local on the left of the condition that the body steps by one
+                        a0 = C.strip_casts(cnd["a"])
+                        stepped = {C.strip_casts(x["x"]).get("id") for x in C.walk_stmt(lp["body"])
+                                   if x.get("k") == "Un" and x.get("op") in ("pre++", "post++")}
+                        if a0.get("k") == "Ref" and a0.get("id") in stepped and a0.get("id") in mdecls:
+                            iv = mdecls[a0["id"]]
+                    if iv is None or C.strip_casts(cnd["a"]).get("id") != iv["id"]:
                         continue
                     used = set()
                     for x in C.walk_stmt(lp["body"]):
